@@ -443,7 +443,8 @@ def write_replay(pid, modname, v):
     os.makedirs(d, exist_ok=True)
     body = {'property': pid, 'module': modname, 'fingerprint': v['fingerprint'], 'what': v.get('what'),
             'case': v.get('case'), 'history': v.get('history'), 'observed': v.get('observed'),
-            'expected': v.get('expected'), 'traceback': v.get('traceback'), 'gnpy_commit': repo_commit()}
+            'expected': v.get('expected'), 'traceback': v.get('traceback'), 'gnpy_commit': repo_commit(),
+            'pythonhashseed': os.environ.get('PYTHONHASHSEED', '0')}
     path = os.path.join(d, digest([v['fingerprint'], v.get('case'), v.get('history')]) + '.json')
     with open(path, 'w') as f:
         json.dump(body, f, indent=1, default=_default)
@@ -468,7 +469,8 @@ def determinism_gate(modname, v):
     for _ in range(2):
         p = subprocess.run([sys.executable, '-m', 'mc.cli', '--_case-digest', modname],
                            input=jdump(case), capture_output=True, text=True, cwd=VERIF,
-                           env=dict(os.environ, PYTHONHASHSEED='0', PYTHONPATH=f'{REPO}:{VERIF}'))
+                           env=dict(os.environ, PYTHONHASHSEED=os.environ.get('PYTHONHASHSEED', '0'),
+                                    PYTHONPATH=f'{REPO}:{VERIF}'))
         if p.returncode != 0:
             return False, f'replay process failed: {p.stderr[-400:]}'
         digs.append(next((ln[len('CASE-DIGEST '):] for ln in reversed(p.stdout.splitlines()) if ln.startswith('CASE-DIGEST ')),
